@@ -434,6 +434,9 @@ class ElemEngine:
                 return ('tuple', (self.item_value(env, a[0]), self.item_value(env, a[1])))
             if s == 'enumerate':
                 return ('tuple', (frozenset([INT]), self.item_value(env, a[0])))
+            if s == 'chain' and len(a) == 2:
+                x, y = self.item_value(env, a[0]), self.item_value(env, a[1])
+                return join(x, y)
             if s in ('rev', 'take', 'skip', 'iter', 'iter_mut', 'chunks', 'chunks_mut', 'flatten', 'copied', 'cloned',
                      'into_iter', 'by_ref', 'chunks_exact', 'chunks_exact_mut', 'into_remainder', 'remainder', 'windows', 'step_by'):
                 return self.item_value(env, a[0])
